@@ -15,7 +15,7 @@ PROPERTY = "C02"
 LEVEL = "exploration"
 SHARDS = {"quick": 4, "thorough": 16}
 REQUIRED = ["response-model", "content-length-vs-counted", "head-equals-get", "byteranges-parts", "if-range-decision",
-            "zerocopy-window", "reused-response-object", "concurrent-requests-one-object"]
+            "zerocopy-window", "reused-response-object", "concurrent-requests-one-object", "in-flight-together-equals-alone"]
 RULE = ("Files of position-coded bytes (all >= 0x80) with sizes {0,1,c-1,c,c+1,2c,3c+1, 9..11, 99..101, 999..1001, 9999..10001} for "
         "chunk sizes c in {1,2,3,4,7,8,64,262144}; Range headers = all 1-spec and sampled 2-spec sets over {0,1,c-1,c,c+1,size-1,size,size+1} "
         "in the three spec forms + random 3-6-spec sets + malformed/other-unit/empty headers; If-Range in {absent,current ETag,stale ETag,"
@@ -395,6 +395,23 @@ def run(ctx):
                     if status != 206 or body != data[s_:e_] or cr != f"bytes {s_}-{e_ - 1}/{size}":
                         ctx.violation("concurrent|single-range-response-wrong", case, f"{status} cr={cr!r} body {len(body)} B, expected [{s_},{e_})")
         ctx.case(("concurrent", size, chunk, r1, r2))
+    # ---- ... and on both interfaces through vf/inflight.py: 2-3 range requests in flight together on one response object, the first
+    #      two of them also as two server threads with a placed thread switch (single ranges only: a multipart boundary is random)
+    from vf import inflight
+    for i in range(ctx.scale(24, 1200)):
+        size, chunk = rng.choice([(10, 3), (100, 7), (1000, 64), (70_000, 65_536)])
+        path, data = env.file(size, ".bin")
+        rhs = [rng.choice([None, "bytes=0-1", "bytes=1-3", "bytes=2-", "bytes=-2", "bytes=5-5", "bytes=0-"]) for _ in range(rng.choice([2, 3]))]
+        reqs = [drivers.Req(headers=[("Range", rh)] if rh is not None else []) for rh in rhs]
+        for iface, ns in (("wsgi", wsgi), ("asgi", asgi)):
+            obj = ns.FileResponse(path, chunk_size=chunk)
+            case = {"in_flight_ranges": rhs, "size": size, "chunk": chunk}
+            if i % 4 == 0:
+                with inflight.preemptor() as pre:
+                    inflight.check_group(ctx, iface, obj, reqs, "file-response", case, pre=pre)
+            else:
+                inflight.check_group(ctx, iface, obj, reqs, "file-response", case)
+        ctx.case(("in-flight", size, chunk, tuple(rhs)))
     ctx.monitors["parse_range-contract(icontract)"] = contracts.COUNTS["parse_range.post"]
 
 
@@ -402,6 +419,19 @@ def replay(ctx, case):
     from baize import asgi, wsgi
     contracts.arm_parse_range()
     env = Env(ctx)
+    if "in_flight_ranges" in case:
+        from vf import inflight
+        path, data = env.file(case["size"], ".bin")
+        reqs = [drivers.Req(headers=[("Range", rh)] if rh is not None else []) for rh in case["in_flight_ranges"]]
+        obj = (wsgi if case["iface"] == "wsgi" else asgi).FileResponse(path, chunk_size=case["chunk"])
+        c = {k: case[k] for k in ("in_flight_ranges", "size", "chunk")}
+        if case.get("preempted"):
+            with inflight.preemptor() as pre:
+                inflight.check_group(ctx, case["iface"], obj, reqs, "file-response", c, pre=pre)
+        else:
+            inflight.check_group(ctx, case["iface"], obj, reqs, "file-response", c)
+        ctx.case(1)
+        return
     obj = None
     prev = case.get("reused_object_previous_ranges")
     if prev is not None:
